@@ -1,13 +1,18 @@
 #!/bin/bash
-# Offline build of the whole framework from files on disk: translators, full .vo build.
+# Offline build of the framework from files on disk: translators, then a full .vo build of
+# every claimed property's closure (Properties/Cxx.vo and the model glue CxxRun.vo).
 set -e
 cd "$(dirname "$0")"
 export YV_REPO="${YV_REPO:-/repo}"
 export PYTHONPATH="$YV_REPO:$(pwd)" PYTHONHASHSEED=0 PYTHONDONTWRITEBYTECODE=1
 mkdir -p evidence/replay ocaml/build coq/Gen
 /venv/bin/python -m harness.regen_all
+/venv/bin/python -c "from harness import checklib; checklib.regen_coqproject()"
+targets=""
+for p in $(cat harness/manifest/READY); do
+  targets="$targets Properties/$p.vo"
+  [ -f coq/$p/${p}Run.v ] && targets="$targets $p/${p}Run.vo"
+done
 cd coq
-(cat _CoqProject.head; find . -name '*.v' | sed 's|^\./||' | sort) > _CoqProject
-coq_makefile -f _CoqProject -o Makefile >/dev/null 2>&1
-timeout 3000 make -j16 2>&1 | grep -v '^Closed under\|^COQDEP\|^COQC' | tail -40
+timeout 3000 make -j16 $targets 2>&1 | grep -v '^Closed under\|^COQDEP\|^COQC' | tail -40
 test "${PIPESTATUS[0]}" = 0
